@@ -24,15 +24,20 @@ import Verif.Model.Common
                             `default:` branch also serves method `none`, with the empty secret),
                             `challengeValidationController.Validate` (every hook is called, in order, until one
                             fails; accepted iff none failed and at least one allowed).
-  * `signCSR`               scep/authority.go `SignCSR`: the authority's signing decision and whether the reply
-                            can be encrypted to the request's certificates are input fields (`signOk`, `encOk`);
-                            a certificate is stored as soon as signing succeeded.
+  * `signCSR`               scep/authority.go `SignCSR`: the authority's signing decision is an input field
+                            (`signOk`); the reply is enveloped for every certificate the request carried
+                            (`certs`, RSA or not: `encOk`); a certificate is stored as soon as signing succeeded.
+  * `Prov`, `init`, `initN`, `pkiOperationP`
+                            the `provisioner.SCEP` object: `Init` (possibly several times) builds the challenge
+                            and notification controllers from `Options.Webhooks`; the handlers run on the controllers.
+  * `notifyHooks`, `runNotify`
+                            `newNotificationController`, `notificationController.Success/Failure` (call count).
   * `failureReply`, `successReply`
                             `CreateFailureResponse` / the CertRep assembled at the end of `SignCSR`.
   * `pkiOperation`          scep/api/api.go `Get`/`Post` → `PKIOperation` → `writeResponse`/`fail`.
 
   Not modelled: provisioner lookup, `selectDecrypter`/`selectSigner` failing (the harness CA always has both),
-  notification webhooks (errors are ignored by the code), the text of `failInfoText`, templates and the
+  the payload of notification webhooks, the text of `failInfoText`, templates and the
   contents of the issued certificate.
 -/
 namespace Verif.SCEP
@@ -145,9 +150,15 @@ structure Req where
   degen : Option Nat
   /-- the authority signs this CSR (`SignWithContext` succeeds) -/
   signOk : Bool
-  /-- `pkcs7.Encrypt` to the certificates of the request succeeds -/
-  encOk : Bool
+  /-- the certificates carried in the request's SignedData (`msg.P7.Certificates`), in order:
+      `true` for an RSA key (`pkcs7.Encrypt` refuses any other recipient) -/
+  certs : List Bool
+  /-- position in `certs` of the certificate whose key signed the request (`p7.GetOnlySigner`) -/
+  signer : Option Nat
   deriving Repr, DecidableEq
+
+/-- `pkcs7.Encrypt` to the certificates of the request succeeds: every one of them is RSA. -/
+def Req.encOk (q : Req) : Bool := q.certs.all id
 
 inductive HookKind where
   | scep | notify
@@ -168,6 +179,7 @@ structure Hook where
   res : HookRes
   deriving Repr, DecidableEq
 
+/-- The provisioner as configured: `ChallengePassword` and `Options.Webhooks` (every kind, in order). -/
 structure Config where
   /-- `ChallengePassword` of the provisioner -/
   secret : Str
@@ -240,9 +252,21 @@ def isChallengeHook (h : Hook) : Bool :=
 /-- `newChallengeValidationController` -/
 def challengeHooks (c : Config) : List Hook := c.hooks.filter isChallengeHook
 
+def isNotifyHook (h : Hook) : Bool :=
+  h.kind == .notify && (h.ct == .x509 || h.ct == .all || h.ct == .unset)
+
+/-- `newNotificationController` -/
+def notifyHooks (c : Config) : List Hook := c.hooks.filter isNotifyHook
+
 inductive Method where
   | none | static | webhook
   deriving Repr, DecidableEq
+
+/-- `selectValidationMethod` on the fields it reads: the secret and the challenge controller's list. -/
+def methodOf (secret : Str) (chal : List Hook) : Method :=
+  if chal.length > 0 then .webhook
+  else if secret ≠ [] then .static
+  else .none
 
 def selectValidationMethod (c : Config) : Method :=
   if (challengeHooks c).length > 0 then .webhook
@@ -268,6 +292,23 @@ def validateChallenge (c : Config) (challenge : Str) : Bool × Nat :=
     | (some a, n) => (decide (a > 0), n)
   | _ => (decide (c.secret = challenge), 0)   -- `default:` static *and* none
 
+/-- `ValidateChallenge` on the fields it reads (secret, challenge controller's list). -/
+def validateWith (secret : Str) (chal : List Hook) (challenge : Str) : Bool × Nat :=
+  match methodOf secret chal with
+  | .webhook =>
+    match runHooks chal 0 0 with
+    | (none, n) => (false, n)
+    | (some a, n) => (decide (a > 0), n)
+  | _ => (decide (secret = challenge), 0)
+
+/-- `notificationController.Success` / `.Failure`: every hook is called in order until one fails
+    (the caller ignores the error): number of calls made. -/
+def runNotify : List Hook → Nat
+  | [] => 0
+  | h :: hs => match h.res with
+    | .error => 1
+    | _ => 1 + runNotify hs
+
 /-! ### replies -/
 
 inductive Status where
@@ -282,8 +323,10 @@ structure Reply where
   inner : Nat
   /-- issued certificates in the clear next to the signer certificate -/
   outer : Nat
-  /-- the content is an EnvelopedData for the requester -/
+  /-- the content is an EnvelopedData -/
   encrypted : Bool
+  /-- positions (in the request's certificate list) of the certificates the content is enveloped for -/
+  recipients : List Nat
   /-- signed with the SCEP signer selected by `selectSigner` -/
   signedByCA : Bool
   deriving Repr, DecidableEq
@@ -299,27 +342,34 @@ structure Result where
   hookCalls : Nat
   /-- certificates stored by the authority -/
   stored : Nat
+  /-- calls made to notification webhooks -/
+  notifyCalls : Nat
   deriving Repr, DecidableEq
 
 /-- `(*Authority).CreateFailureResponse` with `smallscep.BadRequest` -/
 def failureReply : Reply :=
-  { status := .failure, failInfo := some 2, inner := 0, outer := 0, encrypted := false, signedByCA := true }
+  { status := .failure, failInfo := some 2, inner := 0, outer := 0, encrypted := false, recipients := [],
+    signedByCA := true }
 
-/-- the CertRep built at the end of `SignCSR` -/
-def successReply : Reply :=
-  { status := .success, failInfo := none, inner := 1, outer := 1, encrypted := true, signedByCA := true }
+/-- the CertRep built at the end of `SignCSR`: the degenerate certificate is enveloped for *every*
+    certificate the request carried (`a.encrypt(deg, msg.P7.Certificates, …)`). -/
+def successReply (q : Req) : Reply :=
+  { status := .success, failInfo := none, inner := 1, outer := 1, encrypted := true,
+    recipients := List.range q.certs.length, signedByCA := true }
 
-/-- `SignCSR` followed by PKIOperation's handling of its error. -/
-def signCSR (q : Req) (calls : Nat) : Result :=
-  if !q.signOk then { out := .reply failureReply, hookCalls := calls, stored := 0 }
-  else if !q.encOk then { out := .reply failureReply, hookCalls := calls, stored := 1 }
-  else { out := .reply successReply, hookCalls := calls, stored := 1 }
+/-- `SignCSR` followed by PKIOperation's handling of its result (`NotifyFailure` / `NotifySuccess`:
+    `nf` = calls the notification controller makes). -/
+def signCSR (q : Req) (calls nf : Nat) : Result :=
+  if !q.signOk then { out := .reply failureReply, hookCalls := calls, stored := 0, notifyCalls := nf }
+  else if !q.encOk then { out := .reply failureReply, hookCalls := calls, stored := 1, notifyCalls := nf }
+  else { out := .reply (successReply q), hookCalls := calls, stored := 1, notifyCalls := nf }
 
 def mustCheck (F : Facts) (t : MsgType) : Bool := F.checkAll || decide (t ∈ F.checked)
 
-def refused : Result := { out := .http500, hookCalls := 0, stored := 0 }
+def refused : Result := { out := .http500, hookCalls := 0, stored := 0, notifyCalls := 0 }
 
-/-- `Get`/`Post` → `PKIOperation` → response. -/
+/-- `Get`/`Post` → `PKIOperation` → response, for a provisioner whose controllers were built from
+    its configuration. -/
 def pkiOperation (F : Facts) (c : Config) (q : Req) : M Result :=
   if !q.httpOk then .val refused
   else match q.mt with
@@ -335,9 +385,55 @@ def pkiOperation (F : Facts) (c : Config) (q : Req) : M Result :=
         | .val .csr =>
           if mustCheck F t then
             match validateChallenge c q.cp with
-            | (false, n) => .val { out := .reply failureReply, hookCalls := n, stored := 0 }
-            | (true, n) => .val (signCSR q n)
-          else .val (signCSR q 0)
+            | (false, n) => .val { out := .reply failureReply, hookCalls := n, stored := 0, notifyCalls := 0 }
+            | (true, n) => .val (signCSR q n (runNotify (notifyHooks c)))
+          else .val (signCSR q 0 (runNotify (notifyHooks c)))
+
+/-! ### the provisioner object and `Init`
+
+  `provisioner.SCEP.Init` builds the two controllers from `Options.Webhooks`; the handlers read only
+  the controllers. `Init` runs more than once on the same object (the integration tests and embedding
+  code initialise a provisioner before handing it to `authority.New`, which initialises it again). -/
+
+/-- The state of a `provisioner.SCEP` object the PKI operation depends on. -/
+structure Prov where
+  /-- `ChallengePassword`, `Options.Webhooks` -/
+  cfg : Config
+  /-- `challengeValidationController.webhooks` -/
+  chal : List Hook
+  /-- `notificationController.webhooks` -/
+  notif : List Hook
+  deriving Repr, DecidableEq
+
+/-- a freshly unmarshalled provisioner: no controllers yet -/
+def Prov.new (c : Config) : Prov := { cfg := c, chal := [], notif := [] }
+
+/-- `(*SCEP).Init`: fresh lists for both controllers, `Options.Webhooks` untouched. -/
+def init (p : Prov) : Prov := { p with chal := challengeHooks p.cfg, notif := notifyHooks p.cfg }
+
+def initN : Nat → Prov → Prov
+  | 0, p => p
+  | n + 1, p => initN n (init p)
+
+/-- The PKI operation as the handlers run it: on the controllers of the provisioner object. -/
+def pkiOperationP (F : Facts) (p : Prov) (q : Req) : M Result :=
+  if !q.httpOk then .val refused
+  else match q.mt with
+    | none => .val refused
+    | some t =>
+      match parse F q with
+      | .rejected => .val refused
+      | _ =>
+        match decrypt F q t with
+        | .crash => .crash
+        | .val .err => .val refused
+        | .val .nothing => .crash
+        | .val .csr =>
+          if mustCheck F t then
+            match validateWith p.cfg.secret p.chal q.cp with
+            | (false, n) => .val { out := .reply failureReply, hookCalls := n, stored := 0, notifyCalls := 0 }
+            | (true, n) => .val (signCSR q n (runNotify p.notif))
+          else .val (signCSR q 0 (runNotify p.notif))
 
 /-! ### the property's vocabulary -/
 
